@@ -368,6 +368,25 @@ def run(ctx):
                             ctx.fail("C11-R6", cb.path, "sentinel", "non-MSD sentinel %g is not above the threshold range [0,1]" % v, cm.loc_of(t["span"]))
                             okk = True
         if not okk:
+            # match form: `match msd { Some(w) => w, None => SENTINEL }` - the second component of the
+            # per-state tuple is a merged temporary whose definitions are the msd payload and a constant
+            from ..expr import alternatives
+            for cb in p.nested(ms.path):
+                ceb = ExprBuilder(cb)
+                r = ceb.local(0)
+                if not (r[0] == "agg" and r[1] == "tuple" and len(r[2]) == 2):
+                    continue
+                alts = alternatives(ceb, r[2][1])
+                consts = [a for a in alts if a[0] == "c" and not isinstance(a[1], (bool, str)) and a[1] is not None]
+                rest = [a for a in alts if a not in consts]
+                if len(consts) == 1 and rest and all("msd" in show(a) for a in rest):
+                    v = float(consts[0][1])
+                    okk = True
+                    if v > 1.0:
+                        ctx.ok("C11-R6", "non-MSD streams: the voicing weight is the msd value or the constant %g > 1 >= every clamped threshold (match form)" % v, cb.loc())
+                    else:
+                        ctx.fail("C11-R6", cb.path, "sentinel", "non-MSD sentinel %g is not above the threshold range [0,1]" % v, cb.loc())
+        if not okk:
             ctx.fail("C11-R6", ms.path, "sentinel", "no `msd.unwrap_or(sentinel)` found", ms.loc())
     ctx.assume("thresholds are clamped to [0,1] (C20-R1)")
     expl = ("Normal form of the voicing predicate, index agreement at the three MlpgAdjust::new call sites with parameter->field roles "
